@@ -41,12 +41,24 @@ def model(c, runs):
              expect="Conservation|NoStarvation",
              cfg=cfg_text(constants=dict(one, OpsA={"sendall", "sendall_err"}, UsersB={"b1"}, OpsB={"shutdown_write"}, ReadSizes={2},
                                          Mut="eof_sent_stops_credit"), invariants=INVS)),
+        dict(name="window = packet, threshold 1, reads of 1 (an unreported remainder stays): the sender still finishes", module="Channel",
+             cfg=cfg_text(constants=dict(one, OpsA={"sendall"}, W0=3, MaxPkt=3, PeerMax=3, Thresh=1, SendN=6, ReadSizes={1}), invariants=INVS, **LIVE)),
+        dict(name="sensitivity: wait_full_message (the sender waits for window >= the whole next message; the lazy adjust never gets it there)",
+             module="Channel", expect="NoStarvation",
+             cfg=cfg_text(constants=dict(one, OpsA={"sendall"}, W0=3, MaxPkt=3, PeerMax=3, Thresh=1, SendN=6, ReadSizes={1}, Mut="wait_full_message"),
+                          invariants=INVS)),
         dict(name="liveness, pinned discard: the sender starves", module="Channel", expect="<liveness>",
              cfg=cfg_text(constants=dict(one, OpsA={"sendall_err"}, Codes={1, 2}, FixCredit=False, MaxCalls=2, SendN=5, ReadSizes={2}),
                           invariants=[], **LIVE)),
     ]
     if not c.quick:
         jobs += [
+            dict(name="window < packet, threshold 1, reads of 1 and 2", module="Channel",
+                 cfg=cfg_text(constants=dict(one, OpsA={"sendall", "sendall_err"}, W0=2, MaxPkt=3, PeerMax=3, Thresh=1, SendN=5, ReadSizes={1, 2}),
+                              invariants=INVS, **LIVE)),
+            dict(name="window = packet = 4, threshold 2, reads of 1 and 3, 2 senders", module="Channel", kw={"timeout": 850, "workers": 4},
+                 cfg=cfg_text(constants=dict(BASE, OpsA={"sendall", "sendall_err"}, W0=4, MaxPkt=4, PeerMax=4, Thresh=2, SendN=5, ReadSizes={1, 3}),
+                              invariants=INVS, **LIVE)),
             dict(name="liveness: the receiving side has sent its own EOF and keeps reading", module="Channel", kw={"timeout": 850, "workers": 4},
                  cfg=cfg_text(constants=dict(one, OpsA={"sendall", "sendall_err"}, UsersB={"b1"}, OpsB={"shutdown_write"}, ReadSizes={2}),
                               invariants=[], **LIVE)),
@@ -89,6 +101,11 @@ def model(c, runs):
 
 WINS = [32768, 32769, 40960, 65535, 70000]
 FIXED = [
+    # window relative to packet size (window == packet, window < packet) with read sizes that leave an unreported remainder
+    # below the crediting threshold: the sender must still get everything through
+    {"win": 32768, "pkt": 32768, "read": 1000, "threads": {"a1": [("sendall", 70000)]}},
+    {"win": 32768, "pkt": 65536, "read": 1000, "threads": {"a1": [("sendall", 40000)]}},
+    {"win": 40000, "pkt": 40000, "read": 777, "threads": {"a1": [("sendall_err", 90000)]}},
     # the receiving side shuts down ITS OWN sending direction and keeps reading: the peer must still get its window back
     {"win": 32768, "pkt": 32768, "threads": {"a1": [("sendall", 70000)], "b1": [("shutdown_write",)]}},
     {"win": 32769, "pkt": 4096, "threads": {"a1": [("sendall_err", 40000)], "b1": [("shutdown_write",)]}},
@@ -109,7 +126,7 @@ def programs(rnd, n, quick=False):
     for _ in range(n):
         win = rnd.choice(WINS[:3] if quick else WINS)
         # packet classes: minimum, just above the crediting threshold, at the window, above it
-        pkt = rnd.choice([4096, win // 10 + 64, win // 10 + 65, win // 2, win + 64, 2 ** 32 - 1])
+        pkt = rnd.choice([4096, win // 10 + 64, win // 10 + 65, win // 2, win, win + 64, 2 * win, 2 ** 32 - 1])
         pkt = max(pkt, 4096)
         par = {"win": {"A": 32768, "B": win}, "pkt": {"A": 32768, "B": pkt}, "tmo": {"A": "block", "B": "block"}}
         th = {}
@@ -128,7 +145,7 @@ def programs(rnd, n, quick=False):
             th["a%d" % (i + 1)] = ops
         if rnd.random() < 0.25:           # the receiver has nothing more to say (its own EOF) but keeps reading
             th["b1"] = [("shutdown_write",)]
-        th["dB_out"] = [("recv_loop", rnd.choice([1024, 4096, 32768, 65536]))]
+        th["dB_out"] = [("recv_loop", rnd.choice([777, 1024, 4096, 32768, 65536]))]
         th["dB_err"] = [("recv_err_loop", rnd.choice([512, 4096, 65536]))]
         progs.append({"par": par, "threads": th})
     return progs
@@ -157,8 +174,8 @@ def run(c):
     progs = []
     for p in FIXED:
         th = dict(p["threads"])
-        th["dB_out"] = [("recv_loop", 8192)]
-        th["dB_err"] = [("recv_err_loop", 8192)]
+        th["dB_out"] = [("recv_loop", p.get("read", 8192))]
+        th["dB_err"] = [("recv_err_loop", p.get("read", 8192))]
         progs.append({"par": {"win": {"A": 32768, "B": p["win"]}, "pkt": {"A": 32768, "B": p["pkt"]}, "tmo": {"A": "block", "B": "block"}},
                       "threads": th})
     progs += programs(rnd, 6 if c.quick else 200, c.quick)
